@@ -59,6 +59,15 @@ func init() {
 		Variant{ID: "c14-r5-varlen-group", Prop: "C14", File: "replication/binlog_event_json.go",
 			Old: "\t\tres |= int(bb&0x7f) << (7 * idx)", New: "\t\tres |= int(bb&0x7f) << (8 * idx)",
 			Expect: "C14-R5 varlen@readVariableLength"},
+		Variant{ID: "c14-r5-varlen-mask", Prop: "C14", File: "replication/binlog_event_json.go",
+			Old: "\t\tres |= int(bb&0x7f) << (7 * idx)", New: "\t\tres |= int(bb&0xff) << (7 * idx)",
+			Expect: "C14-R5 varlen@readVariableLength"},
+		Variant{ID: "c14-r5-varlen-stop-inverted", Prop: "C14", File: "replication/binlog_event_json.go",
+			Old: "\t\tif int8(bb) >= 0 {\n\t\t\tbreak", New: "\t\tif int8(bb) < 0 {\n\t\t\tbreak",
+			Expect: "C14-R5 varlen@readVariableLength"},
+		Variant{ID: "c14-r5-varlen-stop-bit6", Prop: "C14", File: "replication/binlog_event_json.go",
+			Old: "\t\tif int8(bb) >= 0 {\n\t\t\tbreak", New: "\t\tif bb&0x40 == 0 {\n\t\t\tbreak",
+			Expect: "C14-R5 varlen@readVariableLength"},
 	)
 }
 
@@ -296,26 +305,66 @@ func runC14(a *A) {
 		constSmall := 0
 		okAll := true
 		n := 0
-		instrs(f, func(in ssa.Instruction) {
-			c, ok := in.(*ssa.Call)
-			if !ok || c.Common().StaticCallee() == nil {
-				return
+		// walk f and the in-package helpers it hands its size class to (or that read on its behalf); callees that can
+		// re-enter f (the value printer choosing a new container) carry their own size class and are separate contexts
+		reaches := func(from *ssa.Function) bool {
+			seen := map[*ssa.Function]bool{}
+			var dfs func(g *ssa.Function) bool
+			dfs = func(g *ssa.Function) bool {
+				if g == f {
+					return true
+				}
+				if seen[g] || g.Blocks == nil {
+					return false
+				}
+				seen[g] = true
+				found := false
+				instrs(g, func(in ssa.Instruction) {
+					if c, ok := in.(*ssa.Call); ok && !found {
+						if cal := c.Common().StaticCallee(); cal != nil && cal.Pkg == f.Pkg {
+							found = dfs(cal)
+						}
+					}
+				})
+				return found
 			}
-			name := c.Common().StaticCallee().Name()
-			if name != "readOffsetOrSize" && name != "printJSONValueEntry" {
-				return
-			}
-			n++
-			arg := c.Common().Args[2]
-			if arg == largeP {
-				return
-			}
-			if b, ok := constBool(arg); ok && !b && name == "readOffsetOrSize" {
-				constSmall++
-				return
-			}
-			okAll = false
-		})
+			return dfs(from)
+		}
+		var walk func(g *ssa.Function, lp ssa.Value, depth int)
+		walk = func(g *ssa.Function, lp ssa.Value, depth int) {
+			a.touch(g)
+			instrs(g, func(in ssa.Instruction) {
+				c, ok := in.(*ssa.Call)
+				if !ok || c.Common().StaticCallee() == nil {
+					return
+				}
+				cal := c.Common().StaticCallee()
+				if cal == ro || cal == pe {
+					n++
+					arg := c.Common().Args[2]
+					if lp != nil && arg == lp {
+						return
+					}
+					if b, ok := constBool(arg); ok && !b && cal == ro {
+						constSmall++
+						return
+					}
+					okAll = false
+					return
+				}
+				if cal.Pkg != f.Pkg || cal.Blocks == nil || depth >= 3 || reaches(cal) {
+					return
+				}
+				var sub ssa.Value
+				for i, arg := range c.Common().Args {
+					if lp != nil && arg == lp && i < len(cal.Params) {
+						sub = cal.Params[i]
+					}
+				}
+				walk(cal, sub, depth+1)
+			})
+		}
+		walk(f, largeP, 0)
 		wantSmall := 0
 		if fn == "printJSONObject" {
 			wantSmall = 1
@@ -468,23 +517,185 @@ func c14R5(a *A) {
 	rv := w.fn(w.Repl, "readVariableLength")
 	if a.need(rv != nil, rule, "readVariableLength") {
 		a.touch(rv)
-		t := newTB(nil)
-		var acc, cont string
-		instrs(rv, func(in ssa.Instruction) {
-			if bo, ok := in.(*ssa.BinOp); ok {
-				switch bo.Op {
-				case token.OR:
-					acc = t.term(bo).String()
-				case token.GEQ, token.LSS:
-					cont = condTerm(t, bo)
+		okAcc, okCont, okRet := false, false, false
+		var why []string
+		// accumulate: acc' = acc | (conv)(b & 0x7f) << S, b = data[p], S = 7*i (i: 0,1,2..) or a running shift (0,7,14..)
+		var byteLoad *ssa.UnOp
+		var accOr *ssa.BinOp
+		stepPhi := func(v ssa.Value, step int64) (*ssa.Phi, bool) {
+			phi, ok := stripW(v).(*ssa.Phi)
+			if !ok || len(phi.Edges) != 2 {
+				return nil, false
+			}
+			zero, inc := false, false
+			for _, e := range phi.Edges {
+				e = stripW(e)
+				if k, isC := constInt(e); isC && k == 0 {
+					zero = true
+				} else if bo, isB := e.(*ssa.BinOp); isB && bo.Op == token.ADD && stripW(bo.X) == ssa.Value(phi) {
+					if k, isC := constInt(bo.Y); isC && k == step {
+						inc = true
+					}
 				}
 			}
+			return phi, zero && inc
+		}
+		instrs(rv, func(in ssa.Instruction) {
+			bo, ok := in.(*ssa.BinOp)
+			if !ok || (bo.Op != token.OR && bo.Op != token.ADD) {
+				return
+			}
+			for _, pair := range [][2]ssa.Value{{bo.X, bo.Y}, {bo.Y, bo.X}} {
+				if _, isPhi := stripW(pair[0]).(*ssa.Phi); !isPhi {
+					continue
+				}
+				sh, ok := stripW(pair[1]).(*ssa.BinOp)
+				if !ok || sh.Op != token.SHL {
+					continue
+				}
+				m, ok := stripW(sh.X).(*ssa.BinOp)
+				if !ok || m.Op != token.AND {
+					continue
+				}
+				var ld ssa.Value
+				if k, isC := constInt(m.Y); isC && k == 127 {
+					ld = stripW(m.X)
+				} else if k, isC := constInt(m.X); isC && k == 127 {
+					ld = stripW(m.Y)
+				}
+				u, isLoad := ld.(*ssa.UnOp)
+				if !isLoad || u.Op != token.MUL {
+					why = append(why, "payload is not b&0x7f")
+					continue
+				}
+				if ia, isIA := u.X.(*ssa.IndexAddr); !isIA || ia.X != ssa.Value(rv.Params[0]) {
+					continue
+				}
+				// the shift amount
+				good := false
+				if mul, isMul := stripW(sh.Y).(*ssa.BinOp); isMul && mul.Op == token.MUL {
+					for _, pr := range [][2]ssa.Value{{mul.X, mul.Y}, {mul.Y, mul.X}} {
+						if k, isC := constInt(pr[0]); isC && k == 7 {
+							if _, ok := stepPhi(pr[1], 1); ok {
+								good = true
+							}
+						}
+					}
+				} else if _, ok := stepPhi(sh.Y, 7); ok {
+					good = true
+				}
+				if !good {
+					why = append(why, "groups are not shifted by 0,7,14,...")
+					continue
+				}
+				okAcc, byteLoad, accOr = true, u, bo
+			}
 		})
-		okAcc := strings.Contains(acc, "(& 127 data[") && strings.Contains(acc, "7*")
-		okCont := strings.Contains(cont, "conv<int8>(data[") && strings.Contains(cont, ">= 0")
-		a.check(okAcc && okCont, rule, "varlen@readVariableLength", w.pos(rv.Pos()), "7 payload bits per byte, least significant group first, stop when the high bit is clear",
-			fmt.Sprintf("the variable-length size is accumulated as %s and stops on %s; MySQL uses 7-bit groups (b&0x7f)<<(7*i) with the high bit as continuation", acc, cont))
+		// continuation: the loop is left exactly when the high bit of the same byte is clear
+		if byteLoad != nil {
+			hdrReach := func(from *ssa.BasicBlock) bool { // can the accumulate block be reached again?
+				return reachesAvoiding(from, accOr.Block(), func(*ssa.BasicBlock) bool { return false }, nil)
+			}
+			for _, b := range rv.Blocks {
+				iff, ok := lastInstr(b).(*ssa.If)
+				if !ok {
+					continue
+				}
+				clear, ok := highBitClear(iff.Cond, byteLoad)
+				if !ok {
+					continue
+				}
+				exitK := 1
+				if clear {
+					exitK = 0
+				}
+				if !hdrReach(b.Succs[exitK]) && hdrReach(b.Succs[1-exitK]) {
+					okCont = true
+				} else {
+					why = append(why, "the continuation test is inverted or does not leave the loop")
+				}
+			}
+			// result: the accumulated value and the position after the last byte read
+			t := newTB(nil)
+			t.names[rv.Params[1]] = "pos"
+			okRet = len(returnsOf(rv)) > 0
+			for _, ret := range returnsOf(rv) {
+				v := stripW(ret.Results[0])
+				if phi, isPhi := v.(*ssa.Phi); isPhi {
+					for _, e := range phi.Edges {
+						if stripW(e) != ssa.Value(accOr) {
+							okRet = false
+						}
+					}
+				} else if v != ssa.Value(accOr) {
+					okRet = false
+				}
+				ia := byteLoad.X.(*ssa.IndexAddr)
+				if d := t.term(ret.Results[1]).add(t.term(ia.Index), -1).String(); d != "1" {
+					okRet = false
+					why = append(why, "returned position is last byte + "+d)
+				}
+			}
+		}
+		a.check(okAcc && okCont && okRet, rule, "varlen@readVariableLength", w.pos(rv.Pos()), "7 payload bits per byte, least significant group first, stop when the high bit is clear, return the position after the last byte",
+			fmt.Sprintf("the variable-length size is not decoded as MySQL defines it (7-bit groups (b&0x7f)<<(7*i): %v; stop exactly when the high bit is clear: %v; returns value and next position: %v) %v", okAcc, okCont, okRet, why))
 	}
+}
+
+// highBitClear classifies cond as a test of bit 7 of the byte loaded by ld: (true,true) = cond holds iff the bit is clear,
+// (false,true) = cond holds iff it is set.
+func highBitClear(cond ssa.Value, ld *ssa.UnOp) (bool, bool) {
+	bo, ok := cond.(*ssa.BinOp)
+	if !ok {
+		return false, false
+	}
+	isLd := func(v ssa.Value) bool { return stripW(v) == ssa.Value(ld) }
+	ky, yc := constInt(bo.Y)
+	if !yc {
+		return false, false
+	}
+	// int8(b) >= 0 / < 0
+	if cv, isConv := bo.X.(*ssa.Convert); isConv && isLd(cv.X) {
+		if bits, uns, ok := intBits(cv.Type()); ok && bits == 8 && !uns && ky == 0 {
+			switch bo.Op {
+			case token.GEQ:
+				return true, true
+			case token.LSS:
+				return false, true
+			}
+		}
+		return false, false
+	}
+	// b & 0x80 ==/!=/> 0
+	if and, isAnd := stripW(bo.X).(*ssa.BinOp); isAnd && and.Op == token.AND && ky == 0 {
+		kk, c1 := constInt(and.Y)
+		other := and.X
+		if !c1 {
+			kk, c1 = constInt(and.X)
+			other = and.Y
+		}
+		if c1 && kk == 128 && isLd(other) {
+			switch bo.Op {
+			case token.EQL:
+				return true, true
+			case token.NEQ, token.GTR:
+				return false, true
+			}
+		}
+		return false, false
+	}
+	// b < 0x80 / b >= 0x80 / b <= 0x7f / b > 0x7f on the unsigned byte
+	if isLd(bo.X) {
+		if _, uns, ok := intBits(bo.X.Type()); ok && uns {
+			switch {
+			case bo.Op == token.LSS && ky == 128, bo.Op == token.LEQ && ky == 127:
+				return true, true
+			case bo.Op == token.GEQ && ky == 128, bo.Op == token.GTR && ky == 127:
+				return false, true
+			}
+		}
+	}
+	return false, false
 }
 
 func successReturnsIdx(res *Result) []*ssa.Return {
